@@ -214,3 +214,116 @@ PROPS['C10'] = dict(
          'compared byte-exactly with the model, parsed back with the real reader; non-trivial = inside the documented domain',
     assumptions=['io::Write into a Vec<u8> never fails'],
 )
+
+
+class ParallelRunner(SimpleRunner):
+    """X cases: the harness runs the real `read_parallel_init` with a mock reader and records a trace;
+    the Lean driver decides whether the trace is a behaviour of the protocol model.
+    Y cases: the real per-record functions on real readers, against S."""
+
+    def __init__(self, quick, thorough, which):
+        self.fams = {'quick': quick, 'thorough': thorough}
+        self.which = which
+        self.oracle = None
+        self.raw_oracle = None
+        self.keep_growth = True
+        self.search_fams = thorough
+        self.stats = {}
+
+    def _run(self, res, fams, seed, exact=True):
+        import time
+        for fam, size in fams:
+            t = time.time()
+            cases = run.gen_cases(fam, size, seed)
+            impl = run.run_impl(cases, threads=1, timeout=3600)
+            if impl is None:
+                res.oracle_failures.append((None, 'the harness died while running the parallel cases', ''))
+                return
+            if fam == 'par_x':
+                second = [c + ' ' + o.split(' ')[0] for c, o in zip(cases, impl)]
+                model, spec = run.run_model(second)
+            else:
+                model, spec = run.run_model(cases)
+            nt = 0
+            for c, o, m, s in zip(cases, impl, model, spec):
+                res.evaluations += 1
+                if fam == 'par_x':
+                    if exact and not m.startswith('accept') and 'HANG' not in o and 'PANIC' not in o:
+                        res.exact_diffs.append((c, o, m))
+                    if m.startswith('accept') and 'states=' in m:
+                        self.stats[c.rsplit(' ', 1)[0]] = m
+                    v = oracles.parallel_trace_oracle(c, o, self.which)
+                else:
+                    v = oracles.parallel_real_oracle(c, o, s, self.which)
+                if v.failures:
+                    res.oracle_failures.append((c, v.failures[0], o))
+                if v.nontrivial:
+                    nt += 1
+            res.nontrivial += nt
+            res.families[fam] = res.families.get(fam, 0) + len(cases)
+            if cases:
+                res.samples.append({'family': fam, 'case': cases[0][:300], 'impl': impl[0][:400], 'model': model[0][:200]})
+            res.notes.append('%s: %d cases in %.1fs' % (fam, len(cases), time.time() - t))
+
+    def run(self, res, tier, seed, corpus):
+        self._run(res, self.fams[tier], seed)
+
+    def search(self, res, seed, drift):
+        r2 = engine.Result(res.prop)
+        self._run(r2, self.search_fams, seed + 7919, exact=False)
+        res.evaluations += r2.evaluations
+        return r2.oracle_failures[0] if r2.oracle_failures else None
+
+    def execute(self, cases):
+        impl = run.run_impl(cases, threads=1) or ['<harness died>'] * len(cases)
+        second = [c + ' ' + o.split(' ')[0] if c.startswith('X ') else c for c, o in zip(cases, impl)]
+        model, spec = run.run_model(second)
+        return impl, model, spec
+
+    def extra_evidence(self):
+        st = list(self.stats.values())
+        states = sum(int(x.split('states=')[1].split(' ')[0]) for x in st)
+        trans = sum(int(x.split('trans=')[1].split(' ')[0]) for x in st)
+        dead = sum(int(x.split('dead=')[1].split(' ')[0]) for x in st)
+        return {'states': states, 'transitions': trans, 'model_deadlocks_in_explored_configs': dead,
+                'configs_fully_explored': len(st)}
+
+
+ASSUME_PAR = [
+    'std::sync::mpsc::sync_channel, crossbeam scoped threads and scoped_threadpool follow their documented blocking/disconnect semantics (these are the transition rules of the protocol model)',
+    'the OS scheduler is not controlled: traces are recorded at closure boundaries under scheduling noise and must be accepted by the model; interleavings not observed are covered by the theorems about the model only',
+    'worker and consumer closures return (do not panic or block forever)',
+]
+
+PROPS['C07'] = dict(
+    theorems=[],
+    runner=ParallelRunner(quick=[('par_x', 1500), ('par_y', 1500)], thorough=[('par_x', 40000), ('par_y', 30000)],
+                          which={'deliver'}),
+    rule='mock parallel::Reader with tagged data sets through read_parallel_init (T 1-4, Q 1-4, 0-40 batches, reader errors, init failures, '
+         'early exit) under scheduling noise, trace accepted by the Lean protocol model; real parallel_fasta/fastq on generated files '
+         'against S; non-trivial = at least one result delivered',
+    assumptions=ASSUME_PAR,
+)
+PROPS['C08'] = dict(
+    theorems=[],
+    runner=ParallelRunner(quick=[('par_x', 1500), ('par_y', 500)], thorough=[('par_x', 40000), ('par_y', 10000)],
+                          which={'terminate'}),
+    rule='same runs as C07 under a 20 s watchdog per call and a thread census (with grace period) after each call; '
+         'consumer plans: drain / stop after k for every k / never ask; reader error; reader- and data-set-init failures',
+    assumptions=ASSUME_PAR,
+)
+PROPS['C15'] = dict(
+    theorems=[],
+    runner=ParallelRunner(quick=[('par_x', 1500), ('par_y', 1500)], thorough=[('par_x', 40000), ('par_y', 30000)],
+                          which={'errors'}),
+    rule='reader error at the end of 0-40 batches, each initialisation closure failing at each call index, consumers that stop at or '
+         'continue after the error; real readers on mutated input: parallel error message equals sequential error message',
+    assumptions=ASSUME_PAR,
+)
+PROPS['C16'] = dict(
+    theorems=[],
+    runner=ParallelRunner(quick=[('par_x', 1500)], thorough=[('par_x', 40000)], which={'bounded'}),
+    rule='creation counter of the data-set initialiser and run-ahead (fills minus results logged) at every point of every trace; '
+         'inputs up to 40 batches with queue lengths 1-4; non-trivial = more batches than data sets (recycling happened)',
+    assumptions=ASSUME_PAR + ['memory is not measured; the claim is carried by the counts of data sets'],
+)
